@@ -39,6 +39,25 @@ Theorem C09_add_rejected : forall k a1 a2 a3 s s' e cbs cmds,
 Proof. exact add_rejected. Qed.
 Print Assumptions C09_add_rejected.
 
+(* every refusal of an add has its reason: the driver is inactive, the client is closed, the arguments are illegal (a counter
+   key / label over its limit, or a command that does not fit the 512-byte command buffer - `add_illegal`), or the ring refused
+   the write; conversely legal arguments on an open client with an active driver and room in the ring are accepted - in
+   particular a command of exactly 512 bytes *)
+Theorem C09_add_refused_why : forall k a1 a2 a3 s s' e cbs cmds,
+  do_add k a1 a2 a3 s = (s', (Err e, cbs, cmds)) ->
+  (e = DriverInactive /\ driver_active s = false) \/ (e = Closed /\ closed s = true) \/
+  (e = IllegalArg /\ add_illegal k a1 a2 a3 = true) \/ (e = IllegalState /\ ring_full s = true).
+Proof. exact add_refused_why. Qed.
+Print Assumptions C09_add_refused_why.
+Theorem C09_add_legal_accepted : forall k a1 a2 a3 s,
+  driver_active s = true -> closed s = false -> add_illegal k a1 a2 a3 = false -> ring_full s = false ->
+  exists s', do_add k a1 a2 a3 s = (s', (Ok [next_corr s], [], [Cmd (add_cmd_type k a1) (client_id s) (next_corr s) (add_cmd_args k a1 a2 a3)])).
+Proof. exact add_legal_accepted. Qed.
+Print Assumptions C09_add_legal_accepted.
+Example C09_exact_fit : add_illegal KPub 1 1 488 = false /\ add_illegal KPub 1 1 489 = true /\ add_illegal KSub 1 1 480 = false /\
+  add_illegal KSub 1 1 481 = true /\ add_illegal KCtr 1 112 372 = false /\ add_illegal KCtr 1 112 373 = true /\ add_illegal KCtr 1 0 381 = true.
+Proof. repeat split; vm_compute; reflexivity. Qed.
+
 (* the id handed out is fresh: no registration of any kind carries it and it is not the client id *)
 Theorem C09_add_fresh : forall s k, inv s -> lookup (next_corr s) (getm k s) = None /\ client_id s <> next_corr s.
 Proof. exact fresh_id. Qed.
@@ -201,6 +220,17 @@ Theorem C09_release_refused : forall k r h s, k <> KDest -> inv s -> held k r h 
     end.
 Proof. exact release_held_refused. Qed.
 Print Assumptions C09_release_refused.
+
+(* the user's own close() on the publication / exclusive publication handle it holds: the conductor is not involved - no
+   command, no callback, every registration and every held handle as before - so the later drop still writes its one Remove
+   command (C09_release applies to the state after the close()) *)
+Theorem C09_close_handle : forall k r s,
+  let s' := fst (do_close_handle k r s) in
+  (forall k', getm k' s' = getm k' s) /\ orphans s' = orphans s /\ next_corr s' = next_corr s /\ next_h s' = next_h s /\ closed s' = closed s /\
+  snd (fst (snd (do_close_handle k r s))) = [] /\ snd (snd (do_close_handle k r s)) = [] /\
+  (forall k2 r2 h, held k2 r2 h s -> held k2 r2 h s').
+Proof. exact close_handle_spec. Qed.
+Print Assumptions C09_close_handle.
 
 (* over any history the number of ClientClose commands is that of `close_writes`: one, written by the first close,
    unless the ring refuses it at that moment; without refusals: exactly one iff the history contains a close *)
